@@ -90,6 +90,9 @@ BOUNDED_SEARCH = {
              'single_source (fast path and with paths) and all_pairs against the minimum walk length by Floyd-Warshall')],
     'C08': [('C08.entry_points_agree_bounded', 'sp_oracle', 'src/algorithms/shortest_path/dijkstra.rs',
              'all_pairs[x][y] and single_source(x)[y] both equal the Floyd-Warshall minimum, with and without paths')],
+    'C05': [('C05.betweenness_equals_the_pair_sum_bounded', 'betweenness_oracle', 'src/algorithms/centrality/betweenness.rs',
+             'betweenness_centrality (hop counts and strictly positive weights 1.0 / 2.5 / 3.5, normalized or not, single-edge graphs) against the sum over ordered pairs of the '
+             'fraction of shortest paths through the node computed by brute force, tolerance 1e-9')],
     'C06': [('C06.closeness_equals_the_formula_over_minimal_distances_bounded', 'closeness_oracle', 'src/algorithms/centrality/closeness.rs',
              'closeness_centrality (both wf_improved settings) against the documented formula over Floyd-Warshall distances TO each node')],
     'C15': [('C15.rebuilds_do_not_fail_and_match_their_definitions_bounded', 'derived_oracle', 'src/graph/convert.rs',
@@ -107,7 +110,7 @@ def bounded_search(prop, tier, work):
     for oid, group, where, what in BOUNDED_SEARCH[prop]:
         w, cmd = replay._run_group(group, work)
         tried = getattr(replay._run_group, 'last_tried', None)
-        bound = 'bounded: all graphs with <= 4 nodes (8 kinds, <= 5 edges for n <= 3, <= 3 edges for n = 4, unweighted and weights 1.0 / 0.0 / 2.5), %s' % what
+        bound = 'bounded: all graphs with <= 4 nodes (8 kinds, <= 5 edges for n <= 3, <= 3 edges for n = 4, unweighted, weights 1.0 / 0.0 / 2.5 / f64::MAX where the oracle allows them, and strictly positive weights 1.0 / 2.5 / 3.5), %s' % what
         if w:
             out.append({'id': oid, 'harness': 'verif_search:' + group, 'strength': 'bounded', 'where': where, 'status': 'failed',
                         'detail': '%s; witness: %s' % (bound, str(w)[:400]),
